@@ -458,7 +458,9 @@ def check(prop, tier, seed, only=None, only_bin=None):
         known_lines.append("KNOWN-FINDING: property=%s %s (%d cases this run)" % (prop, known[k], n))
     # group mismatches by function tag to keep the report readable; one replay each (first 5)
     seen_groups = set()
-    for (c, why, mflat) in mismatches:
+    # "shrinking by selection": the generators enumerate small scopes exhaustively, so among the failing cases of a
+    # function there is usually a minimal one already — report the shortest description first
+    for (c, why, mflat) in sorted(mismatches, key=lambda m: (len(m[0]["desc"]), m[0]["id"])):
         g = re.search(r"(?:fn|kind)=(\S+)", c.get("tags", "") + " " + c["desc"])
         g = g.group(1) if g else "?"
         if g in seen_groups: continue
